@@ -817,6 +817,17 @@ fn consist_step_real(c: &mut Consist, req: f64, dt: f64) -> Option<anyhow::Resul
 
 fn consist_trace_case(ctx: &mut Ctx, r: &mut Rng, steps: usize, nmax: usize) {
     let mut c = gen_consist(r, nmax);
+    if r.chance(0.25) {
+        // a RE-COMPOSED consist: constructed from some other unit, then given its real units through the public setter
+        // (anything the constructor caches about the composition — e.g. the count of battery units — is then stale)
+        let real = c.loco_vec.clone();
+        let first_bel = r.chance(0.3);
+        let first = vec![gen_loco(r, first_bel)];
+        let mut c2 = Consist::new(first, None, c.pdct.clone());
+        c2.set_loco_vec(real);
+        c = c2;
+        ctx.count("pt.consist.recomposed_through_setter");
+    }
     if r.chance(0.1) { c.set_assert_limits(false); }
     let n_bel = c.loco_vec.iter().filter(|l| is_bel(l)).count();
     ctx.count(&format!("pt.consist.n_units.{}", c.loco_vec.len()));
